@@ -23,7 +23,7 @@
 (*   f = 2    o[j] = << the list, <<>>, <<>> >>  (a command line of         *)
 (*            build.ninja projected onto the arguments of the history)     *)
 (***************************************************************************)
-EXTENDS ArgList, TLC, Json, IOUtils
+EXTENDS ArgListClasses, TLC, Json, IOUtils
 
 T == JsonDeserialize(IOEnv.TRACE_FILE)
 Alpha == T.alpha
@@ -82,8 +82,36 @@ Walk(c, objs, k, acc) ==
                                ELSE <<V(c, "CallReturn", k, op.o, r.ret, got)>>
                  IN Walk(c, r.objs, k + 1, acc \o v)
 
+\* ---- histories over lists of several classes (ArgListClasses) ------------------------------------------
+\* the batch file has `words` (the shared words) and `cops` (an operation table); a case has
+\*   cl  the classes (indices into Classes) of the lists that exist at the start, in order
+\*   s   the history as indices into T.cops   (or)   ops  explicit operations (b = word numbers)
+\*   r   what every call returned (lists as word numbers), o[j] = << list(obj j) >> at the end
+\* ClassificationIsPerClass: every list is what ArgListClasses!StepC gives for its own class
+COpAt(c, k) == IF "s" \in DOMAIN c THEN T.cops[c.s[k]] ELSE c.ops[k]
+COp(x) == Op(x.k, x.o, x.b, x.i)
+RECURSIVE WalkC(_, _, _, _, _)
+WalkC(c, objs, cls, k, acc) ==
+    IF k > Len(c.r)
+    THEN IF Len(c.o) # Len(objs) THEN Append(acc, V(c, "ObjectCount", k, 0, <<Len(objs)>>, <<Len(c.o)>>))
+         ELSE acc \o LET bad(o) == ViewArgs(cls[o], T.words, c.o[o][1]) # objs[o] IN
+                     IF \E o \in 1..Len(objs) : bad(o)
+                     THEN LET o == CHOOSE o \in 1..Len(objs) : bad(o) /\ \A h \in 1..(o - 1) : ~ bad(h)
+                          IN <<V(c, "ClassificationIsPerClass", k, o, [j \in 1..Len(objs[o]) |-> objs[o][j].id], c.o[o][1])>>
+                     ELSE <<>>
+    ELSE LET op == COp(COpAt(c, k))
+             got == c.r[k]
+         IN IF op.o \notin 1..Len(objs) THEN Append(acc, V(c, "HarnessBadObject", k, op.o, <<>>, <<>>))
+            ELSE LET r == StepC(objs, cls, op, T.words)
+                     v == IF op.k \in Readers
+                          THEN IF ViewArgs(cls[op.o], T.words, got) = r.ret THEN <<>>
+                               ELSE <<V(c, "ClassificationIsPerClass", k, op.o, [j \in 1..Len(r.ret) |-> r.ret[j].id], got)>>
+                          ELSE IF got = r.ret THEN <<>> ELSE <<V(c, "CallReturn", k, op.o, r.ret, got)>>
+                 IN WalkC(c, r.objs, r.cls, k + 1, acc \o v)
+JudgeClasses(c) == WalkC(c, [j \in 1..Len(c.cl) |-> <<>>], [j \in 1..Len(c.cl) |-> Classes[c.cl[j]]], 1, <<>>)
+
 \* the deviations of one case (<<>> = accepted)
-Judge(c) == Walk(c, << <<>> >>, 1, <<>>)
+Judge(c) == IF "cl" \in DOMAIN c THEN JudgeClasses(c) ELSE Walk(c, << <<>> >>, 1, <<>>)
 
 Init == i \in 1..Len(Cases) /\ done = FALSE
 Next == /\ ~ done
